@@ -1,8 +1,8 @@
 #!/usr/bin/env python3
 """C16 (call protocol part) - AMPL bindings of GSL (src/gsl/amplgsl.cc): no silent NaN in value /
 requested partials, NaN and non-integer arguments and partials w.r.t. integer arguments are
-reported, determinism, the call returns (FuncCall.tla).  Agreement of the derivatives with
-numerical differentiation is NOT decided here."""
+reported, determinism, the call returns, measured agreement of the partials with one-sided
+numerical differentiation at plain arguments (FuncCall.tla)."""
 import concurrent.futures as cf
 import glob, json, os, random, re, sys, time
 sys.path.insert(0, os.path.join(os.path.dirname(os.path.abspath(__file__)), "..", "tools"))
@@ -10,6 +10,7 @@ from vlib import *
 
 PID = "C16"
 GSL = os.path.join(SPECS, "gsl")
+PLAIN = ("zero", "half", "one", "two", "m1")     # FuncCall!Plain
 
 # ---- concretisation of argument classes (real position, integer position) ----
 TABLES = {
@@ -60,7 +61,8 @@ def run_shard(exe, d, i, cases, tmo, tmo2):
     with open(cfile, "w") as f:
         for k in cases:
             dig = "-" if not k["digc"] else "".join("1" if (j + 1) in k["ip"] else "0" for j in range(k["ar"]))
-            f.write("%d %s %s %s %d %s\n" % (k["id"], k["fn"], k["mode"], dig or "-", k["ar"], " ".join(fmt(a) for a in k["args"])))
+            # upper-case mode letter: the harness also measures agreement with numerical differentiation
+            f.write("%d %s %s %s %d %s\n" % (k["id"], k["fn"], k["mode"].upper() if k["meas"] else k["mode"], dig or "-", k["ar"], " ".join(fmt(a) for a in k["args"])))
     rc, so, se = run_harness(exe, [cfile, raw, str(tmo), str(tmo2)], timeout=600 + tmo * 200)
     recs = sanitize_trace(raw, rc, se)
     byid = {}
@@ -128,10 +130,13 @@ def run(tier):
             sel = gs
             if per_fn is not None and len(gs) > per_fn:
                 sel = rnd.sample(gs, per_fn)
+                # the calls at which agreement with numerical differentiation is measured are never sampled away
+                sel += [g for g in gs if g["mode"] != "v" and all(c in PLAIN for c in g["cls"]) and g not in sel]
             for g in sel:
                 args = [TABLES[tb][c][1 if (j + 1) in f["ip"] else 0] for j, c in enumerate(g["cls"])]
                 cases.append({"id": len(cases), "fn": f["name"], "ar": f["nargs"], "ip": f["ip"], "rnd": f["random"], "str": f["string"],
-                              "cls": g["cls"], "mode": g["mode"], "digc": g["digc"], "args": args, "tb": tb})
+                              "cls": g["cls"], "mode": g["mode"], "digc": g["digc"], "args": args, "tb": tb,
+                              "meas": g["mode"] != "v" and all(c in PLAIN for c in g["cls"])})
     # run the real bindings (shards of whole functions), validate
     nsh = NPROC
     order = sorted(range(len(cases)), key=lambda i: cases[i]["fn"])
@@ -177,6 +182,13 @@ def run(tier):
             payload = {"case": k, "outcome": e, "what": w}
             if w["k"] == "outcome":
                 for cl in sorted(w["wrong"]):
+                    if cl == "agree":
+                        sides = [("d/dx%d %s" % (i + 1, sd)) for sd, q in (("left", e["dl"]), ("right", e["dr"])) for i, x in enumerate(q) if x == "bad"] + \
+                                [("hes[%d] %s" % (i, sd)) for sd, q in (("left", e["hl"]), ("right", e["hr"])) for i, x in enumerate(q) if x == "bad" and "bad" in e["hlr"] + e["hrr"]]
+                        kind = "kink" if any(x == "bad" for x in e["dl"] + e["hl"]) != any(x == "bad" for x in e["dr"] + e["hr"]) else "both"
+                        v.violation("agree/%s:%s" % (kind, ck), "clause 'agree' violated by %s: no error reported, but %s contradicted by numerical differentiation of the binding's own values (%s)" %
+                                    (call, ", ".join(sides), e.get("worst", "")), payload)
+                        continue
                     v.violation("%s:%s" % (cl, ck), "clause '%s' violated by %s (derivs/hes pre-filled with %s) -> value %s, Errmsg %s%s, NaN partials %s / %s, unwritten partials %s / %s, deterministic %s" %
                                 (cl, call, "NaN" if e["fill"] == "nan" else "a sentinel", e["val"], e["err"], (" (" + e["msg"] + ")") if e.get("msg") else "",
                                  [i for i, x in enumerate(e["dn"]) if x], [i for i, x in enumerate(e["hn"]) if x],
@@ -193,7 +205,7 @@ def run(tier):
     # non-vacuity statistics: how often the antecedent of each clause occurred
     met = {"nan_argument": 0, "nonint_at_integer_position": 0, "partial_wrt_integer_requested": 0,
            "no_error_value_only": 0, "no_error_with_first_partials": 0, "no_error_with_second_partials": 0,
-           "integer_positions_constant": 0, "nonrandom": 0}
+           "integer_positions_constant": 0, "nonrandom": 0, "partials_confirmed_by_numerical_differentiation": 0}
     for (tr, lines) in runs:
         cur = None
         for e in lines:
@@ -206,6 +218,7 @@ def run(tier):
                 met["nonrandom"] += not e["rnd"]
             elif e["e"] == "Ret" and cur is not None and e["err"] == "none" and e["fill"] == "val":
                 met[{"v": "no_error_value_only", "d": "no_error_with_first_partials", "h": "no_error_with_second_partials"}[cur["mode"]]] += 1
+                met["partials_confirmed_by_numerical_differentiation"] += sum(x == "ok" for q in ("dl", "dr", "hl", "hr") for x in e[q])
     if rcode == 0 and not all(met.values()):
         raise Broken("a clause was vacuous in this run: %s" % met)
     if nskip and not v.viol:      # skipping only happens after repeated hangs, which are rejections (new or known)
@@ -223,7 +236,7 @@ def run(tier):
         "evaluations": len(cases), "functions": len(funcs), "functions_with_integer_arguments": nint,
         "signatures": len(sigs), "prototype_unknown": unknown, "outcomes": outcomes, "situations_met": met, "calls_skipped_after_hangs": nskip, "tables": tables,
         "exhaustive": False,
-        "explanation": "all %d functions registered by the real amplgsl.cc through Addfunc (compiled against the funcadd.h shim and system libgsl); argument-class tuples x request modes enumerated by TLC per signature (GenFuncCall), %s; every call made three times in a forked child (derivs/hes pre-filled with NaN, then twice with a sentinel); each (case, outcome) pair validated by TLC against FuncCall.tla. Decided: Errmsg=NULL => no NaN in value/requested partials; NaN argument, non-integer at an integer position, partial w.r.t. an integer argument => error; determinism (non-random functions); the call returns. NOT decided: agreement of derivatives with numerical differentiation." %
+        "explanation": "all %d functions registered by the real amplgsl.cc through Addfunc (compiled against the funcadd.h shim and system libgsl); argument-class tuples x request modes enumerated by TLC per signature (GenFuncCall), %s; every call made three times in a forked child (derivs/hes pre-filled with NaN, then twice with a sentinel); each (case, outcome) pair validated by TLC against FuncCall.tla. Decided: Errmsg=NULL => no NaN in value/requested partials; NaN argument, non-integer at an integer position, partial w.r.t. an integer argument => error; determinism (non-random functions); the call returns. Agreement with numerical differentiation: measured at the calls whose arguments are all plain values (0, -1, 0.25..3) by one-sided Richardson quotients of the binding's own values / first partials on both sides, judged by clause 'agree' (a stable quotient that differs by more than 1e-2 relative contradicts; a kink shows as one side contradicting)." %
                        (len(funcs), "all of them with two concretisation tables" if tier == "thorough" else "a seeded sample of up to %d per function" % per_fn),
         "design_check": {"module": "MCFuncCall", "distinct_states": mc.distinct},
         "rejected": nbad, "rejected_by_clause": byclause, "violations_new": nnew,
